@@ -135,7 +135,7 @@ class Ext:
 
 
 def _writer(nxt, written, gaps, continuous):
-    w = H.DigitalRFWriter.__new__(H.DigitalRFWriter)
+    w = chload.new_obj(H.DigitalRFWriter)
     w._next_avail_sample = SI(nxt); w._total_samples_written = written; w._total_gap_samples = gaps
     w._channelObj = object(); w.is_continuous = continuous
     w._cast_input_array = lambda a: a
